@@ -2,8 +2,11 @@ package harness
 
 import (
 	"fmt"
+	"io"
+	"log"
 	"net"
 	"strings"
+	"sync"
 	"testing"
 	"time"
 
@@ -377,6 +380,89 @@ func c09Cap(id string) {
 	emit("C09 cap id=%s res=%s", id, strings.Join(res, ","))
 }
 
+type vetoMerge struct{ veto bool }
+
+func (v *vetoMerge) NotifyMerge(peers []*ml.Node) error {
+	if v.veto {
+		return fmt.Errorf("merge vetoed")
+	}
+	return nil
+}
+
+// c09Multi: one Join call naming several hosts, some of which veto the merge (their own delegate, or the
+// joiner's): every single exchange is a join and must be mutual or leave both sides as they were.
+func c09Multi(r *rng, id string) {
+	mk := func(name, addr string, veto bool) (*ml.Memberlist, *nullTransport, *vetoMerge) {
+		tr := newNullTransport()
+		v := &vetoMerge{veto: veto}
+		conf := ml.DefaultLANConfig()
+		conf.Name = name
+		conf.Transport = tr
+		conf.AdvertiseAddr = addr
+		conf.AdvertisePort = 7946
+		conf.BindPort = 7946
+		conf.ProbeInterval = time.Hour
+		conf.GossipInterval = 0
+		conf.PushPullInterval = 0
+		conf.Merge = v
+		conf.Logger = log.New(io.Discard, "", 0)
+		m, err := ml.Create(conf)
+		if err != nil {
+			return nil, nil, nil
+		}
+		return m, tr, v
+	}
+	nh := 2 + r.intn(2)
+	var hosts []*ml.Memberlist
+	var vetoes []bool
+	byAddr := map[string]*ml.Memberlist{}
+	var names []string
+	for i := 0; i < nh; i++ {
+		veto := r.chance(1, 2)
+		m, _, _ := mk(fmt.Sprintf("h%d", i), fmt.Sprintf("10.0.1.%d", i+1), veto)
+		if m == nil {
+			return
+		}
+		defer m.Shutdown()
+		hosts = append(hosts, m)
+		vetoes = append(vetoes, veto)
+		byAddr[fmt.Sprintf("10.0.1.%d:7946", i+1)] = m
+		names = append(names, fmt.Sprintf("h%d/10.0.1.%d:7946", i, i+1))
+	}
+	jveto := r.chance(1, 4)
+	jm, jtr, _ := mk("J", "10.0.0.2", jveto)
+	if jm == nil {
+		return
+	}
+	defer jm.Shutdown()
+	var wg sync.WaitGroup
+	jtr.dialer = func(addr string) (net.Conn, error) {
+		h := byAddr[addr]
+		if h == nil {
+			return nil, fmt.Errorf("no route")
+		}
+		a, b := net.Pipe()
+		wg.Add(1)
+		go func() { defer wg.Done(); ml.VerifHandleConn(h, b) }()
+		return a, nil
+	}
+	n, jerr := jm.Join(names)
+	wg.Wait()
+	lists := func(m *ml.Memberlist, name string) int {
+		for _, nd := range m.Members() {
+			if nd.Name == name {
+				return 1
+			}
+		}
+		return 0
+	}
+	var per []string
+	for i, h := range hosts {
+		per = append(per, fmt.Sprintf("%d%d%d", b2i(vetoes[i]), lists(h, "J"), lists(jm, fmt.Sprintf("h%d", i))))
+	}
+	emit("C09 multi id=%s jveto=%d hosts=%s joined=%d err=%d", id, b2i(jveto), strings.Join(per, ","), n, b2i(jerr != nil))
+}
+
 // c09Busy: a host already serving the maximum number of state exchanges (peers that opened one and then
 // stalled) is asked to join by one more node: whatever the host does, the outcome must be mutual - either
 // both list each other and Join reports success, or Join fails and neither changed.
@@ -453,4 +539,5 @@ func TestC09(t *testing.T) {
 	forCases(n/10, 96, "f", func(i int, r *rng, id string) { c09Ppf(r, id) })
 	forCases(n/10, 97, "n", func(i int, r *rng, id string) { rrsLeg("C09", r, id) })
 	forCases(3, 98, "b", func(i int, r *rng, id string) { c09Busy(r, id) })
+	forCases(n/30, 99, "m", func(i int, r *rng, id string) { c09Multi(r, id) })
 }
